@@ -2,6 +2,8 @@ import Pyunicorn.Model.Proto
 import Pyunicorn.Model.Equivariance
 import Pyunicorn.Model.Relabel
 import Pyunicorn.Model.Repr
+import Pyunicorn.Model.NetRW
+import Pyunicorn.Model.NetBetwDef
 /-! Line-protocol driver for C04. -/
 open Pyunicorn Pyunicorn.Proto Pyunicorn.Nsi
 
@@ -86,7 +88,40 @@ def netRelabelled (perm dirS adjS wS : String) : String :=
     mvec n fun i => showRat (Net.nsiDegree dir n a w i),
     mvec n fun i => showRat (Net.nsiLocalClustering n a w i),
     -- round 4
-    showOptRat (Net.assortativity dir n a)] "|"
+    showOptRat (Net.assortativity dir n a),
+    -- round 5: node removal (igraph's shifting renumbering) + BFS + efficiencies; cliquishness kernels
+    mvec n fun i => showOptRat (Net.localVulnerability n a i),
+    showRats (Net.cliquishness 4 n a (Net.outdeg n a)),
+    showRats (Net.cliquishness 5 n a (Net.outdeg n a))] "|"
+
+/-- round 5 — link-weighted clustering of `Pyunicorn.Net` (C03) on `permuted_copy(perm)`: the four
+`key=` motif clustering coefficients (`M` = cubic roots of the link attribute) and
+`weighted_local_clustering` of the weight matrix `W` -/
+def netWeightedRelabelled (perm adjS mS wS : String) : String :=
+  let idx := permFn (nats perm)
+  let A := boolMat adjS; let n := A.length
+  let a := mat (adjFn A) idx
+  let m := mat (ratMatFn (ratMat mS)) idx
+  let w := mat (ratMatFn (ratMat wS)) idx
+  join [
+    mvec n fun i => showRat (Net.cycleCW n a m i), mvec n fun i => showRat (Net.midCW n a m i),
+    mvec n fun i => showRat (Net.inCW n a m i), mvec n fun i => showRat (Net.outCW n a m i),
+    mvec n fun i => showOptRat (Net.weightedLocalClustering n w i)] "|"
+
+/-- round 5 — C03's kernel model of `_nsi_betweenness` and its definition on `permuted_copy(perm)`
+with the node weights, the source mask and the target list renumbered with the nodes -/
+def betwRelabelled (perm adjS wS srcS tgS : String) : String :=
+  let idx := permFn (nats perm)
+  let A := boolMat adjS; let n := A.length
+  let a := mat (adjFn A) idx
+  let w := vec (ratFn (rats wS)) idx
+  let isSrc := nodeList n idx false (bools srcS)
+  let targets := nodes n idx (nats tgS)
+  let D := (List.range n).map fun i => Net.bfs n a i
+  let d : NetBetw.DistFn := fun i j => (D.getD i []).getD j none
+  join [showNats targets,
+    showRats (NetBetw.nsiBetweenness n a w isSrc targets),
+    showRats (NetBetw.nsiBetweennessDef n a w d isSrc targets)] "|"
 
 /-- `Pyunicorn.Cross` (C11) on the renumbered network with the renumbered node lists -/
 def crossRelabelled (perm dirS adjS wS l1 l2 dS : String) : String :=
@@ -236,11 +271,34 @@ def recIsrnRelabelled (permx permy metric exS eyS exyS embxS embyS : String) : S
     (Recurrence.threshold (Recurrence.distCRP m ex' ey')
       (some (Recurrence.unitThr m ((rat? exyS).getD 0))))) (nx + ny + 1)
 
+/-- round 5: joint recurrence network (lag 0) at fixed recurrence rates; `kx`, `ky` are the
+order-statistic indices the source computes -/
+def recJointRateRelabelled (perm metric kxS kyS embxS embyS : String) : String :=
+  let idx := permFn (nats perm)
+  let ex := optV embxS; let ey := optV embyS; let n := ex.length
+  let m := recMetric metric
+  showAdj ((Recurrence.fixedRate (Recurrence.distRP m (rows n idx ex)) kxS.toNat!).bind fun Rx =>
+    (Recurrence.fixedRate (Recurrence.distRP m (rows n idx ey)) kyS.toNat!).bind fun Ry =>
+      Recurrence.hadamard Rx Ry) (n + 1)
+
+/-- round 5: inter-system recurrence network at fixed recurrence rates -/
+def recIsrnRateRelabelled (permx permy metric kxS kyS kxyS embxS embyS : String) : String :=
+  let idx := permFn (nats permx); let idy := permFn (nats permy)
+  let ex := optV embxS; let ey := optV embyS; let nx := ex.length; let ny := ey.length
+  let m := recMetric metric
+  let ex' := rows nx idx ex; let ey' := rows ny idy ey
+  showAdj ((Recurrence.fixedRate (Recurrence.distRP m ex') kxS.toNat!).bind fun Rx =>
+    (Recurrence.fixedRate (Recurrence.distRP m ey') kyS.toNat!).bind fun Ry =>
+      (Recurrence.fixedRate (Recurrence.distCRP m ex' ey') kxyS.toNat!).bind fun CR =>
+        Recurrence.isrm nx ny Rx Ry CR) (nx + ny + 1)
+
 end relabelled
 
 def answer (toks : List String) : String :=
   match toks with
   | ["net", perm, dir, adj, w] => netRelabelled perm dir adj w
+  | ["betw", perm, adj, w, src, tg] => betwRelabelled perm adj w src tg
+  | ["netw", perm, adj, m, w] => netWeightedRelabelled perm adj m w
   | ["cross", perm, dir, adj, w, l1, l2, d] => crossRelabelled perm dir adj w l1 l2 d
   | ["res", perm, adj, res] => resRelabelled perm adj res
   | ["geo", perm, dir, dim, x, adj, d] => geoRelabelled perm dir dim x adj d
@@ -250,6 +308,10 @@ def answer (toks : List String) : String :=
   | ["recjoint", perm, metric, ex, ey, embx, emby] => recJointRelabelled perm metric ex ey embx emby
   | ["recisrn", px, py, metric, ex, ey, exy, embx, emby] =>
       recIsrnRelabelled px py metric ex ey exy embx emby
+  | ["recjointrate", perm, metric, kx, ky, embx, emby] =>
+      recJointRateRelabelled perm metric kx ky embx emby
+  | ["recisrnrate", px, py, metric, kx, ky, kxy, embx, emby] =>
+      recIsrnRateRelabelled px py metric kx ky kxy embx emby
   | ["eval", n, adj, w, la0, g0, g1, dist, sig] => evalAll (mkGr n adj w la0 g0 g1 dist sig)
   | ["relabel", perm, n, adj, w, la0, g0, g1, dist, sig] =>
       let p := nats perm
